@@ -142,8 +142,16 @@ Res(ts, op) ==
 \* In the domain of the property?  (a relationship that is its own inverse is outside)
 InDomain(op) == op.op = "AddTwoWayRel" => ~SelfInverse(op.rel)
 
+\* The property speaks of the set of types and of lookups, not of the position of a type in
+\* Schema.Types: two schemas are compared as name-indexed families (a change that keeps the types in
+\* another order - sorted, say - does not break C14).
+ByName(ts) == [n \in Names(ts) |-> ts[IdxOf(ts, n)]]
+SameSchema(a, b) == Len(a) = Len(b) /\ ByName(a) = ByName(b)
 Allowed(pre, op, post, ret) ==
-    ~InDomain(op) \/ [post |-> post, ret |-> ret] \in Res(pre, op)
+    ~InDomain(op) \/ \E r \in Res(pre, op) :
+        /\ r.ret = ret
+        \* an edit that changes nothing (an error, a removal of something absent) leaves the schema EXACTLY as it was
+        /\ IF r.post = pre THEN post = pre ELSE SameSchema(r.post, post)
 
 -----------------------------------------------------------------------------
 (* Queries (observations after every step; C14 "lookups agree")            *)
